@@ -104,7 +104,8 @@ def build_specs():
                   a_ref=_g(1), m_ref=m_ned, params=lambda: merged(timing(), opt('gain', gain()), opt('gain_marg', gain())), q0=None,
                   gyro_zero_skips=True))
     # ---------------- Mahony
-    mah = lambda: merged(timing(), opt('k_P', gain()), opt('k_I', gain()))
+    mah = lambda: merged(timing(), opt('k_P', gain()), opt('k_I', gain()),
+                         opt('b0', st.lists(gen.fl(-0.05, 0.05), min_size=3, max_size=3).map(lambda b: np.array(b))))
     S.append(Spec('Mahony', 'IMU',
                   lambda g, a, m, fr, dip, P, q0: Mahony(gyr=A(g), acc=A(a), **P, **kw_q0(q0)),
                   lambda fr, dip, P: (lambda o: (o, lambda q, g, a, m: o.updateIMU(A(q), A(g), A(a))))(Mahony(**P)),
@@ -115,7 +116,8 @@ def build_specs():
                   a_ref=_g(1), m_ref=m_mahony, params=mah, gyro_zero_skips=True))
     # ---------------- EKF
     ekf = lambda: merged(timing(), opt('noises', st.lists(gen.log_uniform(-6, 0), min_size=3, max_size=3)),
-                         opt('var_acc', gen.log_uniform(-6, 0)), opt('var_gyr', gen.log_uniform(-6, 0)))
+                         opt('var_acc', gen.log_uniform(-6, 0)), opt('var_gyr', gen.log_uniform(-6, 0)),
+                         opt('P', gen.log_uniform(-3, 0).map(lambda v: np.identity(4)*v)))
     S.append(Spec('EKF', 'IMU',
                   lambda g, a, m, fr, dip, P, q0: EKF(gyr=A(g), acc=A(a), frame=fr, magnetic_ref=float(dip), **P, **kw_q0(q0)),
                   lambda fr, dip, P: (lambda o: (o, lambda q, g, a, m: o.update(A(q), A(g), A(a))))(EKF(frame=fr, magnetic_ref=float(dip), **P)),
@@ -175,6 +177,15 @@ def build_specs():
                       AngularRate(**{k: v for k, v in P.items() if k not in ('method', 'order')})),
                   params=ar, converges=False))
     return S
+
+
+ARRAY_PARAMS = ('weights', 'b0', 'P', 'noises')
+
+
+def revive_params(P):
+    """Parameters travel through JSON as lists; array-valued ones are turned into ndarrays ONCE per case, so that every
+    construction of the case receives the very same array objects (as a caller re-using a settings dict would)."""
+    return {k: (np.array(v, dtype=float) if k in ARRAY_PARAMS and isinstance(v, list) else v) for k, v in P.items()}
 
 
 def spec_key(s):
